@@ -21,6 +21,11 @@ fn emit_condition(
             out.push(json!({"CNT?": context.qualified_choice_labels[name]}));
         }
         Condition::Expression(Expression::Variable(name))
+            if scope.resolve_knot_level_label(name, context).is_some() =>
+        {
+            out.push(json!({"CNT?": scope.resolve_knot_level_label(name, context).unwrap()}));
+        }
+        Condition::Expression(Expression::Variable(name))
             if context.top_flow_names.contains(name) || scope.child_flow_names.contains(name) =>
         {
             out.push(json!({"CNT?": scope.resolve_divert_target(name, context)}));
